@@ -20,8 +20,10 @@ static void child_quiet(void) { int dn = open("/dev/null", O_WRONLY); if (dn >= 
 
 #define CAP 4
 #define MAXDIM (CAP + 2)
-static double TAG;
-static double next_tag(void) { TAG += 1.0; return TAG; }
+static double TAG; static int FRACT;
+/* distinct cell tags; fractional (spacing 0.25) for the floating-point containers so that an ordering that only looks at the
+ * integer part of a difference is visible, whole numbers for the integer containers and the string vector */
+static double next_tag(void) { TAG += 1.0; return FRACT ? 0.25 * TAG : TAG; }
 static char OPNAME[96];
 static char KEY[160];
 static const char *key(const char *what) { snprintf(KEY, sizeof KEY, "%s|%s", what, OPNAME); return KEY; }
@@ -418,7 +420,7 @@ static void body(void) {
   if (mode == 0 && kind == 0) D = vx_thorough() ? 3 : 2;                   /* matrix: 136 operations per step */
   if (mode == 0 && kind == 5) D = 3;                                        /* tensor: 60 operations per step */
   if (mode == 1 && kind == 5) vx_require(0);   /* two tensors of up to 3 slices have ~1e8 joint shapes: no closure, depth-bounded histories only */
-  TAG = 0; OPNAME[0] = 0;
+  TAG = 0; OPNAME[0] = 0; FRACT = (kind == 0 || kind == 1 || kind == 5 || kind == 6);
   int nops; int (*step)(int); uint64_t (*state)(void); void (*fin)(void);
   switch (kind) {
     case 0: m_reset(); nops = 2 * M_NOPS; step = m_step; state = m_state; fin = m_free; break;
